@@ -159,6 +159,15 @@ LimitOutcome(limit, size) ==
   THEN [o |-> "deliver", n |-> size]
   ELSE [o |-> "tooBig", maxHanded |-> limit + 1, close |-> 1009]
 
+(* SetReadLimit called while a message is being read: the statement does not say which of the two limits governs that message, *)
+(* so only what holds under either reading is demanded -- a message within both is delivered, a message beyond both is never    *)
+(* reported complete, at most (the larger limit)+1 of its bytes are handed over, and 1009 is sent; anything else is open.       *)
+MidOutcome(l1, l2, size) ==
+  IF (l1 < 0 \/ size <= l1) /\ (l2 < 0 \/ size <= l2) THEN [o |-> "deliver", n |-> size]
+  ELSE IF l1 >= 0 /\ size > l1 /\ l2 >= 0 /\ size > l2
+    THEN [o |-> "tooBig", maxHanded |-> (IF l1 > l2 THEN l1 ELSE l2) + 1, close |-> 1009]
+  ELSE [o |-> "open"]
+
 -----------------------------------------------------------------------------
 (* The decoder as a state machine driven by an arbitrary peer (model checking).            *)
 CONSTANTS Flate, MaxFrames
